@@ -241,7 +241,7 @@ func (l *loader) loadBus(pBus *acmelibv1.Bus) (*Bus, error) {
 	}
 
 	for _, pNodeInt := range pBus.NodeInterfaces {
-		nodeInt, err := l.loadNodeInterface(pNodeInt)
+		nodeInt, err := l.loadNodeInterface(pNodeInt, bus)
 		if err != nil {
 			return nil, err
 		}
@@ -260,7 +260,7 @@ func (l *loader) loadBus(pBus *acmelibv1.Bus) (*Bus, error) {
 	return bus, nil
 }
 
-func (l *loader) loadNodeInterface(pNodeInt *acmelibv1.NodeInterface) (*NodeInterface, error) {
+func (l *loader) loadNodeInterface(pNodeInt *acmelibv1.NodeInterface, bus *Bus) (*NodeInterface, error) {
 	node, ok := l.refNodes[pNodeInt.NodeEntityId]
 	if !ok {
 		return nil, &EntityIDError{
@@ -283,7 +283,7 @@ func (l *loader) loadNodeInterface(pNodeInt *acmelibv1.NodeInterface) (*NodeInte
 	}
 
 	for _, pMsg := range pNodeInt.Messages {
-		msg, err := l.loadMessage(pMsg)
+		msg, err := l.loadMessage(pMsg, bus)
 		if err != nil {
 			return nil, err
 		}
@@ -334,9 +334,14 @@ func (l *loader) loadSignalPayload(pSigPayload *acmelibv1.SignalPayload) map[str
 	return sigMap
 }
 
-func (l *loader) loadMessage(pMsg *acmelibv1.Message) (*Message, error) {
+func (l *loader) loadMessage(pMsg *acmelibv1.Message, bus *Bus) (*Message, error) {
 	ent, err := l.loadEntity(pMsg.Entity, EntityKindMessage)
 	if err != nil {
+		return nil, err
+	}
+
+	// the size is checked against the bus before a payload of that size is built
+	if err := bus.verifyMessageSize(int(pMsg.SizeByte)); err != nil {
 		return nil, err
 	}
 	msg := newMessageFromEntity(ent, MessageID(pMsg.MessageId), int(pMsg.SizeByte))
